@@ -8,7 +8,7 @@
     (= [in_polygon], the crossing count with the half-open rule). *)
 From Coq Require Import List Bool Arith ZArith PArith QArith Qabs Qreduction Sorted Permutation.
 From Gen Require Import GenGeom.
-From P Require Import Locate LocBasics LocSearch LocPolygon LocConvex LocBlock LocTrack LocRefuted LineModel LocRect LocLine LocMain.
+From P Require Import Locate LocBasics LocSearch LocPolygon LocConvex LocStraight LocBlock LocTrack LocRefuted LineModel LocRect LocLine LocEnd LocMain.
 Import ListNotations.
 Open Scope Q_scope.
 
@@ -65,6 +65,27 @@ Example in_polygon_convex_ex :
   (3 <= length ex_hexagon)%nat /\ convex_ccw ex_hexagon /\ off_edge_lines ex_hexagon (2, 2) /\
   in_polygon (2, 2) ex_hexagon = true.
 Proof. exact ex_hexagon_convex. Qed.
+(** columns with straight angles (three collinear vertices): a vertex strictly between its neighbours on
+    their segment contributes nothing -- the two halves of a split edge cross the ray exactly when the whole
+    edge does -- so it can be dropped (if it is not the first vertex of the list, which is the reference
+    point of in_polygon), and the test is correct through the strictly convex polygon that remains *)
+Theorem in_polygon_straight_vertex_removable : forall pos X a m b Y,
+  between a m b -> in_polygon pos (X ++ a :: m :: b :: Y) = in_polygon pos (X ++ a :: b :: Y).
+Proof. exact in_polygon_drop_mid. Qed.
+Print Assumptions in_polygon_straight_vertex_removable.
+Theorem in_polygon_straight_last_vertex_removable : forall pos p0 mid a m,
+  between a m p0 -> in_polygon pos (p0 :: mid ++ [a; m]) = in_polygon pos (p0 :: mid ++ [a]).
+Proof. exact in_polygon_drop_last. Qed.
+Print Assumptions in_polygon_straight_last_vertex_removable.
+Theorem in_polygon_convex_with_straight_angles : forall l l' pos,
+  straightens l l' -> (3 <= length l')%nat -> convex_ccw l' -> off_edge_lines l' pos ->
+  (in_polygon pos l = true <-> strictly_inside l' pos).
+Proof. exact in_polygon_convex_straight. Qed.
+Print Assumptions in_polygon_convex_with_straight_angles.
+Example in_polygon_convex_with_straight_angles_ex :
+  straightens [(2, 0); (2, 2); (1, 2); (0, 2); (0, 0)] [(2, 0); (2, 2); (0, 2); (0, 0)] /\
+  convex_ccw [(2, 0); (2, 2); (0, 2); (0, 0)] /\ ~ convex_ccw [(2, 0); (2, 2); (1, 2); (0, 2); (0, 0)].
+Proof. exact ex_straight. Qed.
 (** the columns of rectangular geometries (PyTOUGH's vertex order) are such polygons ... *)
 Theorem rectangle_is_convex_ccw : forall x0 y0 x1 y1,
   x0 < x1 -> y0 < y1 -> convex_ccw [(x1, y0); (x1, y1); (x0, y1); (x0, y0)].
@@ -435,3 +456,85 @@ Theorem track_points_are_intersections : forall (polygon : colfun (list pt)) (td
   on_line_and_column (polygon (seg_col s)) l1 l2 (seg_out s).
 Proof. exact track_model_points. Qed.
 Print Assumptions track_points_are_intersections.
+
+(** ** END TO END: column_track lists exactly the crossed columns.
+    Exact model ([column_track] with [line_intersects_rectangle] on the bounding boxes and the intersection
+    lists [inters]); hypotheses:
+    - distances from the start of the line are [len] x the (rational) parameter along the line: no square root;
+    - [inters c] is line_polygon_intersections of column c AFTER its np.unique/round de-duplication, carried as
+      the abstraction [dedup_ok]: it keeps (up to coordinates) the first and the last of the sorted hits -- true
+      when distinct crossings of the column are farther apart than the merge tolerance, 1e-3 x the column's
+      longest side since the repair 3317c5b, i.e. exactly when the chord is not a clip the property exempts;
+    - columns: no repetition, strictly convex counter-clockwise, at least 3 vertices;
+    - general position: the end points of the line are off the supporting lines of every column's edges, and
+      every hit lies on an edge proper and strictly between the end points (no hit in the 1e-9 zones);
+    - tiling: no point of the line is strictly inside two columns.
+    [crossing poly l1 l2 a b]: the line is strictly inside the column exactly for parameters in (a, b)
+    (and not even in the closed column outside [a, b]).  Conclusions: the track is the list [keyed] without
+    its keys; [keyed] is sorted by entry distance (= len x a); every listed segment is the chord of its column,
+    longer than tol x longest side or the whole line; every column with such a chord is listed; no column is
+    listed twice; lengths plus gaps between consecutive segments telescope to the distance from the first
+    entry to the last exit (consecutive segments abut exactly when the gap is zero, i.e. nothing was dropped
+    or missing between them). *)
+Theorem column_track_lists_exactly_the_crossed_columns :
+  forall (polygon inters : colfun (list pt)) (tdist : pt -> Q) (maxside : colfun Q) (len : Q) (l1 l2 : pt)
+         (cols : list positive),
+  0 < len ->
+  (forall p t, pt_eq p (lpoint l1 l2 t) -> tdist p == len * t) ->
+  (forall c, In c cols -> 0 <= maxside c) ->
+  NoDup cols ->
+  (forall c, In c cols -> (3 <= length (polygon c))%nat /\ convex_ccw (polygon c)) ->
+  (forall c, In c cols -> off_edge_lines (polygon c) l1) ->
+  (forall c, In c cols -> off_edge_lines (polygon c) l2) ->
+  (forall c, In c cols -> forall h, In h (lpi_hits (polygon c) l1 l2) ->
+     0 <= h_xi0 h /\ h_xi0 h <= 1 /\ 0 < h_xi1 h /\ h_xi1 h < 1) ->
+  (forall c, In c cols -> dedup_ok (lpi_points (polygon c) l1 l2) (inters c)) ->
+  (forall t, 0 <= t -> t <= 1 -> forall c c', In c cols -> In c' cols ->
+     strictly_inside (polygon c) (lpoint l1 l2 t) -> strictly_inside (polygon c') (lpoint l1 l2 t) -> c = c') ->
+  let track := column_track polygon (lirf polygon l1 l2) inters tdist maxside track_tol l1 l2 cols in
+  let keyed := keyed polygon inters tdist maxside l1 l2 cols in
+  track = map snd keyed /\
+  Sorted (fun x y : Q * seg => fst x <= fst y) keyed /\
+  (forall d s, In (d, s) keyed ->
+     exists a b, In (seg_col s) cols /\ crossing (polygon (seg_col s)) l1 l2 a b /\
+                 pt_eq (seg_in s) (lpoint l1 l2 a) /\ pt_eq (seg_out s) (lpoint l1 l2 b) /\ d == len * a /\
+                 (long maxside len (seg_col s) a b \/ (a == 0 /\ b == 1))) /\
+  (forall c a b, In c cols -> crossing (polygon c) l1 l2 a b ->
+     long maxside len c a b \/ (contains_point polygon c l1 = true /\ contains_point polygon c l2 = true) ->
+     exists d s, In (d, s) keyed /\ seg_col s = c /\
+                 pt_eq (seg_in s) (lpoint l1 l2 a) /\ pt_eq (seg_out s) (lpoint l1 l2 b)) /\
+  NoDup (map seg_col track) /\
+  (forall s0 rest, track = s0 :: rest ->
+     sum_len tdist (s0 :: rest) + sum_gaps tdist (s0 :: rest) == tdist (seg_out (last rest s0)) - tdist (seg_in s0)).
+Proof. exact end_to_end. Qed.
+Print Assumptions column_track_lists_exactly_the_crossed_columns.
+Example column_track_lists_exactly_the_crossed_columns_ex :
+  let l1 := (50, -10) in let l2 := (50, 250) in let cols := [1; 4]%positive in
+  0 < 260 /\
+  (forall p t, pt_eq p (lpoint l1 l2 t) -> ex_tdist2 p == 260 * t) /\
+  NoDup cols /\
+  (forall c, In c cols -> (3 <= length (m_polygon c))%nat /\ convex_ccw (m_polygon c)) /\
+  (forall c, In c cols -> off_edge_lines (m_polygon c) l1) /\
+  (forall c, In c cols -> off_edge_lines (m_polygon c) l2) /\
+  (forall c, In c cols -> forall h, In h (lpi_hits (m_polygon c) l1 l2) ->
+     0 <= h_xi0 h /\ h_xi0 h <= 1 /\ 0 < h_xi1 h /\ h_xi1 h < 1) /\
+  (forall c, In c cols -> dedup_ok (lpi_points (m_polygon c) l1 l2) (lpi_points (m_polygon c) l1 l2)) /\
+  (forall t, 0 <= t -> t <= 1 -> forall c c', In c cols -> In c' cols ->
+     strictly_inside (m_polygon c) (lpoint l1 l2 t) -> strictly_inside (m_polygon c') (lpoint l1 l2 t) -> c = c') /\
+  map seg_col (column_track m_polygon (lirf m_polygon l1 l2) (fun c => lpi_points (m_polygon c) l1 l2)
+                 ex_tdist2 (fun _ => 100) track_tol l1 l2 cols) = [1; 4]%positive.
+Proof. exact ex_end_to_end_hyps. Qed.
+(** the chord of a convex column is unique, and what the sorted hits say about it *)
+Theorem chord_unique : forall l l1 l2 a b a' b', crossing l l1 l2 a b -> crossing l l1 l2 a' b' -> a == a' /\ b == b'.
+Proof. exact crossing_unique. Qed.
+Print Assumptions chord_unique.
+
+(** ** no hidden state (the model statement mirrored by the sequence oracle on the implementation):
+    after any history of queries and edits the answer is that of the current geometry alone *)
+Theorem answers_depend_on_current_geometry_only : forall g history q,
+  run g (history ++ [Ask q]) = run g history ++ [answer (current g history) q].
+Proof. exact history_independent. Qed.
+Print Assumptions answers_depend_on_current_geometry_only.
+Theorem queries_leave_the_geometry_unchanged : forall g qs, current g (map Ask qs) = g.
+Proof. exact queries_do_not_change_geometry. Qed.
+Print Assumptions queries_leave_the_geometry_unchanged.
